@@ -131,9 +131,65 @@ def ops : List (String × Op) := [
   ("di2c", ivOp okDI2C)
 ]
 
+/-! ### transcripts built on a chunk -/
+
+def pWin : P Win := do
+  let ws ← pNat; let we ← pNat; let wst ← pStrand; pure ⟨(ws, we), wst⟩
+
+/-- the chunk-built twin does not know the chromosome's length (its chromosome parent carries no sequence) -/
+def forChunk (r : RawTx) : RawTx := { r with plen := none }
+
+def kvecOp (ok : TxSpec → Win → Int → Option Int → Bool) : Op := do
+  let r ← pRawTx; let W ← pWin; let lo ← pInt; let hi ← pInt; pArrow; let a ← pVecAns
+  match specBuild (forChunk r), a with
+  | .invalid, a => pure (verdict a.isNone)
+  | .na, _ => pure "n/a"
+  | .ok t, a =>
+    if ¬ winOk W then pure "n/a" else
+    match a with
+    | none => pure "fail constructor-refused-a-valid-transcript"
+    | some cells => pure (verdict (okVec (ok t W) lo hi cells))
+
+def klocOp (ok : TxSpec → Win → Option Location → Bool) : Op := do
+  let r ← pRawTx; let W ← pWin; pArrow; let a ← pAns pOutLoc
+  match specBuild (forChunk r) with
+  | .invalid => pure (verdict a.isNone)
+  | .na => pure "n/a"
+  | .ok t => if ¬ winOk W then pure "n/a" else pure (verdict (ok t W a))
+
+def kivOp (ok : TxSpec → Win → Int → Int → Strand → Option Location → Bool) : Op := do
+  let r ← pRawTx; let W ← pWin; let s ← pInt; let e ← pInt; let st ← pStrand; pArrow; let a ← pAns pOutLoc
+  match specBuild (forChunk r) with
+  | .invalid => pure (verdict a.isNone)
+  | .na => pure "n/a"
+  | .ok t => if ¬ winOk W then pure "n/a" else pure (verdict (ok t W s e st a))
+
+def chunkOps : List (String × Op) := [
+  -- the chromosome-level methods of the chunk-built transcript: the SAME required answers as on the chromosome
+  ("kc2t", kvecOp fun t _ => okC2T t),
+  ("kt2c", kvecOp fun t _ => okT2C t),
+  ("kc2d", kvecOp fun t _ => okC2D t),
+  ("kd2c", kvecOp fun t _ => okD2C t),
+  ("kd2t", kvecOp fun t _ => okD2T t),
+  ("kt2d", kvecOp fun t _ => okT2D t),
+  ("kci2t", kivOp fun t _ => okCI2T t),
+  ("cr2t", kvecOp okCR2T),
+  ("t2cr", kvecOp okT2CR),
+  ("cr2d", kvecOp okCR2D),
+  ("d2cr", kvecOp okD2CR),
+  ("cri2t", kivOp okCRI2T),
+  ("ti2cr", kivOp okTI2CR),
+  ("cri2d", kivOp okCRI2D),
+  ("di2cr", kivOp okDI2CR),
+  ("kutr5", klocOp fun t W a => okKUtr t W true a),
+  ("kutr3", klocOp fun t W a => okKUtr t W false a),
+  ("kloc", klocOp okChunkLoc),
+  ("kcdsloc", klocOp okChunkCdsLoc)
+]
+
 /-- unknown op ↦ `n/a` (as `Driver.runSpec`) -/
 def answer (line : String) : String :=
-  let r := runOp ops (line.trimRight)
+  let r := runOp (ops ++ chunkOps) (line.trimRight)
   if r.startsWith "bad-op" then "n/a" else r
 
 /-- lines are independent: answered on all cores -/
